@@ -870,9 +870,6 @@ func (w *W) tryIfConvert(s *State, fr *Frame, c *Term) bool {
 	default:
 		return false
 	}
-	if join.Index <= blk.Index {
-		return false // do not merge across back edges
-	}
 	// the join must not have the same predecessor twice
 	if predA == predB {
 		return false
@@ -910,7 +907,13 @@ func (w *W) tryIfConvert(s *State, fr *Frame, c *Term) bool {
 	}
 	atomic.AddInt64(&w.e.ifconv, 1)
 	fr.mergeCond, fr.mergeA, fr.mergeB = c, predA, predB
-	fr.prev, fr.block, fr.pc = predA, join, 0
+	// the join may be a loop header (arg-max loops): jump() does the unwinding accounting
+	fr.block = predA
+	if predA == blk && predB != blk {
+		fr.block = predB
+	}
+	w.jump(s, fr, join)
+	fr.prev = predA
 	if len(join.Instrs) > 0 {
 		if _, isPhi := join.Instrs[0].(*ssa.Phi); !isPhi {
 			fr.mergeCond = nil
